@@ -29,6 +29,12 @@ def make_model(kind):
     return P.GriddedPSFModel(NDData(np.array(arrs), meta={'grid_xypos': xy, 'oversampling': 1}))
 
 
+def _with_lbkg(init, value):
+    t = init.copy()
+    t['local_bkg'] = np.full(len(t), float(value))
+    return t
+
+
 def rec_scene(seed):
     from astropy.table import Table
     from photutils.background import LocalBackground
@@ -120,7 +126,7 @@ def rec_scene(seed):
                                xy_bounds=(bval, bval) if bounds else None, localbkg_estimator=lbe)
     rec = {'id': seed, 'model': mkind, 'pos': [list(p) for p in ipos], 'h': h, 'w': w, 't': t, 'grouping': grouping, 'supplied': supplied,
            'mask': [list(z) for z in {tuple(z) for z in mask_l + nan_l}], 'nonfinite': bool(nan_l), 'lbkg_estimator': use_lbkg_est, 'maskblind_ok': True,
-           'fit': list(fit), 'local_bkg': use_lbkg, 'raised': False, 'check_recovery': False, 'scaled_ok': True, 'iter_equal': True, 'n': n}
+           'fit': list(fit), 'local_bkg': use_lbkg, 'raised': False, 'check_recovery': False, 'scaled_ok': True, 'units_ok': True, 'iter_equal': True, 'n': n}
     try:
         ph = mk()
         res = ph(data, mask=m, init_params=init.copy())
@@ -173,6 +179,25 @@ def rec_scene(seed):
         res3 = mk()(data * 3.0, mask=m, init_params=init3)
         # (demanded for well-constrained scenes only: separately fitted heavy blends converge to ill-defined values)
         rec['scaled_ok'] = bool((not rec['check_recovery']) or np.allclose(np.asarray(res3['flux_fit']), 3.0 * np.asarray(res['flux_fit']), rtol=1e-5, atol=1e-5))
+        # the same scene with units: data in Jy, the supplied local backgrounds (and initial fluxes) written in mJy - the same physical
+        # numbers must come back (or the call must refuse)
+        rec['units_ok'] = True
+        if seed % 4 == 1 and not nan_l:
+            import astropy.units as u
+            from astropy.table import QTable
+            init_u = QTable(init)
+            if use_lbkg:
+                init_u['local_bkg'] = (np.asarray(init['local_bkg']) * 1000.0) * u.mJy
+            else:
+                init_u['local_bkg'] = np.full(n, 2500.0) * u.mJy
+            du = (data + (0.0 if use_lbkg else 2.5)) * u.Jy
+            try:
+                ru = mk()(du, mask=m, init_params=init_u)
+                ref = res if use_lbkg else mk()(data + 2.5, mask=m, init_params=Table(init, copy=True) if False else _with_lbkg(init, 2.5))
+                rec['units_ok'] = bool(np.allclose(np.asarray(ru['flux_fit'].to_value(u.Jy)), np.asarray(ref['flux_fit'], dtype=float), rtol=1e-6, atol=1e-6, equal_nan=True)
+                                       and np.allclose(np.asarray(ru['x_fit'], dtype=float), np.asarray(ref['x_fit'], dtype=float), rtol=1e-6, atol=1e-6, equal_nan=True))
+            except (ValueError, u.UnitsError):
+                pass          # refusing mixed units is allowed
         # IterativePSFPhotometry with one iteration equals PSFPhotometry on the shared columns
         if seed % 3 == 0:
             it = IterativePSFPhotometry(mod, fit, DAOStarFinder(1e9, 3.0), grouper=SourceGrouper(t / 4.0) if grouping in ('grouper', 'both') else None,
